@@ -64,7 +64,7 @@ def run(tier):
     cfg = os.path.join(wd, "mc.cfg")
     open(cfg, "w").write("SPECIFICATION Spec\nCONSTANTS MaxLen = %d\n Export = TRUE\n Alphabet = %s\nINVARIANT Emit\nCHECK_DEADLOCK FALSE\n" % (maxlen, ALPHA))
     cases = os.path.join(wd, "cases.ndjson")
-    r = vlib.tlc("TexPathMC", cfg, workers=12, timeout=6000, export_to=cases, tag="c19-mc", heap="16g")
+    r = vlib.tlc("TexPathMC", cfg, workers=12, timeout=6000, export_to=cases, tag="c19-mc", heap="16g", extra=["-maxSetSize", "20000000"])
     ck.add_tlc("TexPathMC(MaxLen=%d)" % maxlen, r, "transcription + canonical clauses + idempotence on every token string")
     if r.rc != 0 or r.exported != r.distinct:
         raise vlib.InfraError("TexPathMC: rc=%d exported %d of %d" % (r.rc, r.exported, r.distinct))
